@@ -30,10 +30,18 @@ Print Assumptions C19_library_clean.
 (* same codeword, same returned length with the flag on or off (L0 level: all codes) *)
 Theorem C19_flag_irrelevant_partial : forall E D id p fl v s, valid id p v ->
   wrun (swprims E true) (sel_write E D true id p fl v) s = wrun (swprims E false) (sel_write E D false id p fl v) s.
-Proof.
-  intros E D id p fl v s Hv.
-  destruct (codes_correct E D true id p fl v Hv) as (H1 & _ & _).
-  destruct (codes_correct E D false id p fl v Hv) as (H2 & _ & _).
-  rewrite H1, H2. reflexivity.
-Qed.
+Proof. exact MachineTheorems.flag_irrelevant. Qed.
 Print Assumptions C19_flag_irrelevant_partial.
+
+(* on the word machine of any width: both builds append the same codeword and return the same length
+   (or report a full sink); never Fail *)
+Theorem C19_flag_irrelevant_machine : forall E W D id p fl v b s1 s2,
+  wrel E W b s1 -> wrel E W b s2 -> valid id p v ->
+  match wrun (bwprims E W true) (sel_write E D true id p fl v) s1,
+        wrun (bwprims E W false) (sel_write E D false id p fl v) s2 with
+  | Ok (l1, t1), Ok (l2, t2) => l1 = l2 /\ wabs E W t1 = wabs E W t2 /\ WInv W t1 /\ WInv W t2
+  | Ok _, Err | Err, Ok _ | Err, Err => True
+  | _, _ => False
+  end.
+Proof. exact MachineTheorems.flag_irrelevant_machine. Qed.
+Print Assumptions C19_flag_irrelevant_machine.
